@@ -92,12 +92,23 @@ def runs_gm(tier, modes, proj=None, chk=True):
     return out
 
 
-def runs_xen(tier, proj=None):
+def runs_xen(tier, proj=None, chk=False):
     """guest-memory world in the `xen` feature build: UNIX, foreign, advance-mapped grant and on-demand grant regions through hook H3"""
     r = {"world": "gm", "n": 8000 if tier == "quick" else 300000, "opts": ["xen"], "features": "xen", "seed_off": 31}
     if proj:
         r["proj"] = proj
-    return [r]
+    out = [r]
+    if chk:
+        # the same world in a build with overflow checks and debug assertions (C07, C18)
+        c = dict(r)
+        c.update({"profile": "chk", "n": r["n"] // 2, "seed_off": 37})
+        out.append(c)
+    return out
+
+
+def runs_xbuild(tier):
+    """region construction and drop in the `xen` feature build against the emulated gntdev/privcmd of hook H3 (C15, C12)"""
+    return {"world": "xbuild", "n": 6000 if tier == "quick" else 150000, "features": "xen", "seed_off": 41}
 
 
 def with_proj(runs, proj):
@@ -160,9 +171,9 @@ PROPS.update({
     },
     "C18": {
         "modules": ["VmMem.Props.C18", "VmMem.Props.C18g"], "theorems": T("C18") + T("C18g"),
-        "runs": lambda tier: runs_slice(tier, streams=True) + runs_gm(tier, ["mixed"], chk=True) + (runs_xen(tier) if tier == "thorough" else []),
+        "runs": lambda tier: runs_slice(tier, streams=True) + runs_gm(tier, ["mixed"], chk=True) + runs_xen(tier, chk=True),
         "trusted_base": [],
-        "assumptions": ["Xen advance / on-demand regions are exercised in the thorough tier (xen-feature build through hook H3)"],
+        "assumptions": ["Xen advance / on-demand regions are exercised through hook H3 (xen-feature build, release and overflow-checked profiles)"],
     },
     "C03": {
         "modules": ["VmMem.Props.C03"], "theorems": T("C03"),
@@ -194,8 +205,8 @@ PROPS.update({
                         "The correspondence run is sequential; the thorough tier adds a reader/updater stress on real threads"],
     },
     "C12": {
-        "modules": ["VmMem.Props.C12"], "theorems": T("C12"),
-        "runs": lambda tier: [{"world": "life", "n": 2500 if tier == "quick" else 60000}],
+        "modules": ["VmMem.Props.C12", "VmMem.Props.C15x"], "theorems": T("C12") + [t for t in T("C15x") if "drop" in t],
+        "runs": lambda tier: [{"world": "life", "n": 2500 if tier == "quick" else 60000}, runs_xbuild(tier)],
         "corpus": True,
         "trusted_base": ["Arc drops its value exactly when the last reference goes; munmap/mmap are the kernel's; /proc/self/maps reflects the mappings",
                          "rustc's borrow checker (programs quantifier)"],
@@ -203,15 +214,15 @@ PROPS.update({
                         "(all must be rejected with a borrow/lifetime error) and 6 controls, i.e. by testing a corpus, not by a theorem"],
     },
     "C15": {
-        "modules": ["VmMem.Props.C15"], "theorems": T("C15"),
-        "runs": lambda tier: [{"world": "build", "n": 3000 if tier == "quick" else 60000}],
+        "modules": ["VmMem.Props.C15", "VmMem.Props.C15x"], "theorems": T("C15") + T("C15x"),
+        "runs": lambda tier: [{"world": "build", "n": 3000 if tier == "quick" else 60000}, runs_xbuild(tier)],
         "trusted_base": ["the kernel's mmap either fails or maps what was asked (model parameter)", "file mapping coherence is kernel behaviour: observed by the run, not proved"],
-        "assumptions": ["PARTIAL: the Xen half (flag words, file requirements) is proved over the model; the quick run covers the Unix build"],
+        "assumptions": ["PARTIAL: file coherence is kernel behaviour (observed); the Xen half is proved over the validation model and the system-call model (VmMem/Model/XenBuild.lean) and tied by the xen-feature run through the emulated gntdev/privcmd of hook H3, every flag word 0..0xffff included"],
     },
     "C07": {
         "modules": ["VmMem.Props.C07"], "theorems": T("C07"),
         # the observation that matters is completed-ok / completed-err / panic: compare the first token only
-        "runs": lambda tier: runs_slice(tier, streams=True) + runs_gm(tier, ["mixed", "edit"]) + runs_bitmap(tier) + (runs_xen(tier) if tier == "thorough" else []),
+        "runs": lambda tier: runs_slice(tier, streams=True) + runs_gm(tier, ["mixed", "edit"]) + runs_bitmap(tier) + runs_xen(tier, chk=True),
         "trusted_base": ["allocation failure aborts and stack overflow are not modelled", "the constructor invariants (WF layout, bitmap Inv, live root allocation) hold for objects built through the safe API (C09, C10, C15)"],
         "assumptions": ["documented program-logic panics (array index out of range) are stated separately and exactly (documented_panics); VMM-chosen operands are explicit guards: enlarge overflow, zero-length regions, oversized zero-sized-element buffers"],
     },
